@@ -246,6 +246,7 @@ crate::harnesses! { REGISTRY;
     c12_offset_ascii_8 [unwind 14] = |s| offset_ascii::<_, 8>(s);
     c12_offset_non_ascii [unwind 12] = |s| offset_non_ascii(s);
     c12_month_code [unwind 8] = |s| month_code(s);
+    c12_tz_identifier_3 [unwind 8] = |s| tz_identifier::<_, 3>(s);
     c12_tz_identifier_4 [unwind 9] = |s| tz_identifier::<_, 4>(s);
     c12_tz_identifier_5 [unwind 10] = |s| tz_identifier::<_, 5>(s);
 }
